@@ -384,7 +384,7 @@ def generate_cases(ctx):
     shapes = list(SHAPES)
     for shape in shapes:
         for pool in POOLS:
-            if not ctx.thorough and shape not in CORE_SHAPES and pool == 'dropped': continue
+            if not ctx.thorough and shape not in CORE_SHAPES and pool != 'warm' and not (pool == 'fresh' and shapes.index(shape) % 3 == ctx.seed % 3): continue
             n, off = baseline_len(ctx, shape, pool, False)
             add(shape, pool, [])
             # every single fault index of the fault-free run (+ the calls error handling adds: up to 4 more)
@@ -511,8 +511,9 @@ THREAD_SHAPES = ['optimistic', 'immediate', 'ddl', 'raw_write', 'm2m', 'commit_m
 
 
 def thread_case(workdir, tc):
-    """A runs `shape` with a fault (kind, nth) of its own calls; it is paused right after it has acquired the transaction
-    lock until B waits for that lock (and C, if any, for the pre-lock); then everything runs freely."""
+    """A runs `shape` with a fault (kind, nth) of its own calls; it is paused at its first DB-API call after
+    acquire_lock() (it holds the transaction lock) until B waits for that lock (and C, if any, for the pre-lock); then
+    everything runs freely."""
     opts, body, _prog, _br = SHAPES[tc['shape']]
     tr = Tracer()
     path = os.path.join(workdir, 't%d.sqlite' % tc['id'])
@@ -522,10 +523,13 @@ def thread_case(workdir, tc):
     tr.wrap_locks(E.db.provider)
     mark = tr.mark()
     a_holds, gate = threading.Event(), threading.Event()
-    def hook(ev):
-        if ev['i'] is None and ev['call'] == 'acquire' and ev['thread'] == 'A' and not a_holds.is_set():
+    a_in = threading.Event()
+    def after(ev):       # (a release is recorded before the lock is really released: do not pause here)
+        if ev['i'] is None and ev['call'] == 'pre_release' and ev['thread'] == 'A': a_in.set()
+    def before(ev):      # the first DB-API call A makes while it holds the transaction lock
+        if ev['thread'] == 'A' and a_in.is_set() and not a_holds.is_set():
             a_holds.set(); gate.wait(10)
-    tr.after_call.append(hook)
+    tr.after_call.append(after); tr.before_call.append(before)
     if tc['fault'] is not None:
         tr.set_faults([Fault(call=tc['fault'][0], nth=tc['fault'][1], thread='A', exc=tc['exc_class'])])
     res = {}
@@ -587,7 +591,7 @@ def thread_scenarios(ctx, workdir):
             points.append((c, seen.get(c, 0))); seen[c] = seen.get(c, 0) + 1
         for extra in ('rollback', 'close'):        # calls that only error handling makes
             points.append((extra, seen.get(extra, 0)))
-        if not ctx.thorough: points = [None] + rng.sample(points[1:], min(len(points) - 1, 3 if shape in ('read', 'body_exc', 'm2m', 'commit_mid') else 5))
+        if not ctx.thorough: points = [None] + rng.sample(points[1:], min(len(points) - 1, 5 if shape in ('read', 'body_exc', 'm2m', 'commit_mid') else 9))
         for pt in points:
             tcs.append({'id': len(tcs), 'shape': shape, 'fault': pt, 'others': 2 if (len(tcs) % 3) else 1,
                         'exc_class': EXC_CLASSES[len(tcs) % len(EXC_CLASSES)]})
